@@ -605,3 +605,87 @@ theorem judge_answer (w : World) (r : Req) (chain : List Authn) (hw : w.wf = tru
           simp only [passesOn, fails, hx, Bool.true_and, Bool.not_eq_true] at hp
           cases hu : usable w a r <;> cases hf : a.fallback <;> simp_all
         simp [hg, judge, obsOf, obsOfResult, resultOf, hx, hdec, sameOutcome]
+
+/-! ## which decoder reads the body: the media type -/
+
+theorem hasInfix_iff (l sub : List Char) : hasInfix l sub = true ↔ sub <:+: l := by
+  induction l with
+  | nil => simp [hasInfix]
+  | cons c cs ih =>
+    simp only [hasInfix, Bool.or_eq_true, ih, List.isPrefixOf_iff_prefix, List.infix_cons_iff]
+
+theorem contains_iff (ct sub : String) : contains ct sub = true ↔ ∃ p s : String, ct = p ++ sub ++ s := by
+  simp only [contains, hasInfix_iff]
+  constructor
+  · rintro ⟨p, s, h⟩
+    refine ⟨String.ofList p, String.ofList s, ?_⟩
+    apply String.toList_injective
+    simp [String.toList_append, h]
+  · rintro ⟨p, s, rfl⟩
+    exact ⟨p.toList, s.toList, by simp [String.toList_append]⟩
+
+theorem decoderFor_json_iff (ct : String) : decoderFor ct = some .json ↔ contains ct "json" = true := by
+  unfold decoderFor
+  by_cases h1 : contains ct "json" = true
+  · simp [h1]
+  · by_cases h2 : contains ct "application/x-www-form-urlencoded" = true
+    · simp [h1, h2]
+    · by_cases h3 : contains ct "yaml" = true <;> simp [h1, h2, h3]
+
+theorem decoderFor_form_iff (ct : String) :
+    decoderFor ct = some .form ↔
+      contains ct "json" = false ∧ contains ct "application/x-www-form-urlencoded" = true := by
+  unfold decoderFor
+  by_cases h1 : contains ct "json" = true
+  · simp [h1]
+  · by_cases h2 : contains ct "application/x-www-form-urlencoded" = true
+    · simp [h1, h2]
+    · by_cases h3 : contains ct "yaml" = true <;> simp [h1, h2, h3]
+
+theorem decoderFor_yaml_iff (ct : String) :
+    decoderFor ct = some .yaml ↔
+      contains ct "json" = false ∧ contains ct "application/x-www-form-urlencoded" = false ∧
+        contains ct "yaml" = true := by
+  unfold decoderFor
+  by_cases h1 : contains ct "json" = true
+  · simp [h1]
+  · by_cases h2 : contains ct "application/x-www-form-urlencoded" = true
+    · simp [h1, h2]
+    · by_cases h3 : contains ct "yaml" = true <;> simp [h1, h2, h3]
+
+theorem decoderFor_none_iff (ct : String) :
+    decoderFor ct = none ↔
+      contains ct "json" = false ∧ contains ct "application/x-www-form-urlencoded" = false ∧
+        contains ct "yaml" = false := by
+  unfold decoderFor
+  by_cases h1 : contains ct "json" = true
+  · simp [h1]
+  · by_cases h2 : contains ct "application/x-www-form-urlencoded" = true
+    · simp [h1, h2]
+    · by_cases h3 : contains ct "yaml" = true <;> simp [h1, h2, h3]
+
+/-- the parameter of the decoded body -/
+theorem bodyParam_of_decoded (r : Req) (f : Format) (m : List (String × BVal)) (name : String)
+    (hd : decoderFor (r.header "Content-Type") = some f) (hp : r.payload.readBy f = some m) :
+    r.bodyParam name = (m.find? (fun p => p.1 == name)).map (·.2) := by
+  simp [Req.bodyParam, Req.body, hd, hp]
+
+theorem bodyParam_no_decoder (r : Req) (name : String) (hd : decoderFor (r.header "Content-Type") = none) :
+    r.bodyParam name = none := by
+  simp [Req.bodyParam, Req.body, hd]
+
+/-! ## the endpoint's own authentication -/
+
+/-- whatever the authorization server answers to heimdall's token request — any status, any error code, any body —
+the error of the authentication strategy is no argument error -/
+theorem tokenAnswer_failure_arg_free (a : TokenAnswer) (e : Err) (h : a.failure = some e) :
+    e.is .argument = false := by
+  cases a with
+  | badRequest c => cases c <;> simp [TokenAnswer.failure] at h <;> subst h <;> simp
+  | _ => simp [TokenAnswer.failure] at h <;> subst h <;> simp
+
+theorem endpointAuth_failure_arg_free (a : EndpointAuth) (e : Err) (h : a.failure = some e) :
+    e.is .argument = false := by
+  cases a with
+  | clientCredentials t => exact tokenAnswer_failure_arg_free t e h
+  | _ => simp [EndpointAuth.failure] at h
